@@ -128,6 +128,18 @@ impl Plan {
     }
 }
 
+/// Timeouts that cannot elapse: 100 years in ms; the sentinels stand for `Duration::from_secs(u64::MAX)` and
+/// `Duration::MAX` (see `timeout_duration`).
+pub const HUGE_TIMEOUTS: [u64; 3] = [3_155_760_000_000, u64::MAX - 1, u64::MAX];
+
+pub fn timeout_duration(ms: u64) -> std::time::Duration {
+    match ms {
+        u64::MAX => std::time::Duration::MAX,
+        x if x == u64::MAX - 1 => std::time::Duration::from_secs(u64::MAX),
+        x => std::time::Duration::from_millis(x),
+    }
+}
+
 pub fn gen_plan(hseed: u64) -> Plan {
     let mut r = Rng::new(hseed);
     let workers = r.pick(&[1usize, 2, 4]);
@@ -138,7 +150,11 @@ pub fn gen_plan(hseed: u64) -> Plan {
     // connects every 20-50 ms from the call on
     let probe = graceful && !stuck && r.chance(14);
     let has_blocker = !stuck && !probe && r.chance(55);
-    let timeout_ms = graceful.then(|| {
+    // a timeout that can never elapse (a century, `Duration::from_secs(u64::MAX)`, `Duration::MAX`): everything in
+    // flight finishes long before it, so the run is planned around the nominal value and must behave like any other
+    // graceful shutdown whose timeout is not reached
+    let huge = graceful && !stuck && r.chance(9);
+    let nominal_ms = graceful.then(|| {
         if stuck {
             r.pick(&[300u64, 400])
         } else if probe {
@@ -149,6 +165,7 @@ pub fn gen_plan(hseed: u64) -> Plan {
             r.pick(&[300u64, 400, 500, 600, 700])
         }
     });
+    let timeout_ms = if huge { Some(r.pick(&HUGE_TIMEOUTS)) } else { nominal_ms };
     let call = r.range(160, 340);
     let size = match r.below(10) {
         0..=2 => r.range(1, 6),
@@ -186,7 +203,7 @@ pub fn gen_plan(hseed: u64) -> Plan {
         }
     }
     if stuck {
-        let b = 3 * timeout_ms.unwrap_or(0) + 600 + r.range(0, 200);
+        let b = 3 * nominal_ms.unwrap_or(0) + 600 + r.range(0, 200);
         let at = call - r.range(20, 60);
         stall_from = Some(at);
         push(&mut conns, "stuck_worker_blocker", false, at - r.range(0, 20), vec![(at, HK::Block(b), true, None)]);
@@ -202,7 +219,7 @@ pub fn gen_plan(hseed: u64) -> Plan {
         }
     }
     // what a short in-flight handler may cost, so that "stall + latency" stays well inside the timeout
-    let short_max = match timeout_ms {
+    let short_max = match nominal_ms {
         Some(t) if has_blocker => 60.min(t / 3),
         Some(t) => (t / 3).max(45),
         None => 200,
@@ -212,7 +229,7 @@ pub fn gen_plan(hseed: u64) -> Plan {
         None => (call.saturating_sub(6), call),
     };
     let n_after = r.range(1, 3) as usize;
-    let want_long = if graceful { r.chance(30) } else { r.chance(75) };
+    let want_long = !huge && if graceful { r.chance(30) } else { r.chance(75) };
     if want_long {
         let at = call - r.range(20, 150);
         push(&mut conns, "inflight_long", false, at.saturating_sub(r.range(0, 20)), vec![(at, HK::Long, false, None)]);
@@ -241,7 +258,7 @@ pub fn gen_plan(hseed: u64) -> Plan {
                 let at = call - r.range(8, d.saturating_sub(15).max(8)).min(call - 100);
                 push(&mut conns, "inflight_short", false, at.saturating_sub(r.range(0, 15)), vec![(at, HK::Sleep(d), r.chance(50), None)]);
             }
-            62..=64 if longs < 2 => {
+            62..=64 if longs < 2 && !huge => {
                 longs += 1;
                 let at = call - r.range(20, 150);
                 push(&mut conns, "inflight_long", false, at, vec![(at, HK::Long, r.chance(50), None)]);
